@@ -32,6 +32,11 @@
 -/
 import Cog.Sem.JsonSchemaOutSelf
 import Cog.Sem.JsonSchemaOutTerm
+-- imports of the block of the c01-front builder (end of file)
+import Cog.Sem.WidenStruct
+import Cog.Sem.RoundTrip
+import Cog.Gen.Chains
+import Cog.Front.JsonSchemaSoundMain
 namespace Cog.Sem.JSOut
 open Cog.IR Cog.Sem GoVal
 open Cog.OMap (rget rset)
@@ -367,5 +372,127 @@ theorem C12_refs_resolve_total (S : Schemas) (s : Schema) (hc : emitClosed S s =
 example : (match emitDefs (emitFuel cycleSchemas) cycleSchemas cycleRoot with
            | some D => keys D == ["Root", "Node"]
            | none => false) = true := by decide +kernel
+
+/-! ---- BEGIN block of the c01-front builder (front-end model: Cog/Front/JsonSchema*.lean; tie: stream `c01-front`, verb `jsfc12`) ----
+
+  SOURCE JSON Schema → front-end → Go chain → emitted JSON Schema.  For a source schema of the fragment `FragJS` whose
+  front-end IR `S` lies in `PlainS`, with `Sg` the output of the Go chain and `D = emitDefs Sg` on the fragment `jsFrag`:
+  every document that is strictly valid against the SOURCE schema (`jsValidX`: Cog/Front/JsonSchemaValid.lean) and respects
+  the IR (`sat`: excludes exactly what the known findings C12/nullable/not-represented-null-rejected and
+  C12/any/emitted-as-type-object describe — `null` at a required nullable member, non-object values in an `any`) decodes
+  into the generated Go type, re-encodes to an equivalent document, and that document validates against
+  `#/definitions/<root>` of the EMITTED schema.  Composition of C01_jsonschema_parser_sound_partial (parser soundness),
+  `widen_chainS` (pass widening) and C12_values_validate_same_ir_partial.  Without `sat` the statement is false
+  (`…_counterexample`, an instance of C12/nullable/…).  The converse (emitted-valid ⇒ source-valid) is MEASURED by the tie
+  on the real emitter and an independent validator, not proved. -/
+namespace FE
+open Cog.IR Cog.Sem Cog.Sem.Src Cog.Passes Cog.Gen.Chains
+open Cog.Front.JsonSchema (Defs JAttrs FragJS frontEnd refTo jsValidX parser_sound)
+
+theorem C12_jsonschema_source_validates_emitted_partial (fmt : String → String → Bool) (pkg : String) (defs : Defs)
+    (root : String) (fuel : Nat) (S Sg : Schemas) (s : Schema) (efuel : Nat) (D : Def)
+    (hF : FragJS defs (refTo root) = true) (hS : frontEnd pkg defs fuel (refTo root) = .ok S)
+    (hP : PlainS S = true) (hrun : runChain goChain S = .ok Sg)
+    (hself : Schemas.locate Sg pkg = some s) (hpkg : s.pkg = pkg) (hf : jsFrag Sg s = true)
+    (he : emitDefs efuel Sg s = some D) (hn : localHas s root = true)
+    (n F : Nat) (hFu : n + 3 ≤ F) (j : Json) (hwf : wfDeep j = true)
+    (hv : jsValidX fmt defs n (refTo root) j = true)
+    (hsat : sat (n + 3) Sg (.ref pkg root {}) j = true) :
+    ∃ j', goRoundTrip (n + 3) Sg pkg root j = .ok j' ∧ Json.eqv j' j = true ∧ jsValidObj D (F + 1) root j' = true := by
+  subst hpkg
+  have hsrc := parser_sound fmt s.pkg defs root fuel S hF hS n j hwf hv
+  have hden := (widen_chainS goChain (by decide) S Sg hP hrun).2 (n + 2) s.pkg root j hsrc
+  obtain ⟨j', h1, h2⟩ := C12_values_validate_same_ir_partial Sg s hself hf efuel D he (n + 3) F hFu root hn j hden hsat
+  obtain ⟨v, hv, g⟩ := roundtrip_core Sg (n + 3) _ j hden
+  have : j' = GoVal.goEncode v := by
+    simp [goRoundTrip, hv, DRes.map, DRes.bind] at h1
+    exact h1.symm
+  exact ⟨j', h1, by subst this; simp [Json.eqv, g.enc_sub, g.sub_enc], h2⟩
+
+/-! non-vacuity: `R = {n?: integer | null, name: string minLength 1 (required), tags?: [string]}` -/
+
+def scS (a : JAttrs) : Cog.Front.JsonSchema.JS := .mk a [] [] [] [] .none .none .none
+def exDefsFE : Defs := [("R", .mk { types := ["object"], hasProps := true, required := ["name"] } [] [] []
+  [("n", scS { types := ["integer", "null"] }), ("name", scS { types := ["string"], minLength := 1 }),
+   ("tags", .mk { types := ["array"] } [] [] [] [] .none (.one (scS { types := ["string"] })) .none)] (.bool false) .none .none)]
+def exDocFE : Json := .obj [("name", .str "x"), ("tags", .arr [.str "t"])]
+
+example :
+    FragJS exDefsFE (refTo "R") = true ∧ wfDeep exDocFE = true ∧
+    jsValidX (fun _ _ => true) exDefsFE 4 (refTo "R") exDocFE = true ∧
+    (match frontEnd "p" exDefsFE 8 (refTo "R") with
+     | .ok S =>
+       PlainS S &&
+       (match runChain goChain S with
+        | .ok Sg =>
+          (match Schemas.locate Sg "p" with
+           | some s => s.pkg == "p" && jsFrag Sg s && (emitDefs 8 Sg s).isSome && localHas s "R" &&
+                       sat 7 Sg (.ref "p" "R" {}) exDocFE
+           | none => false)
+        | _ => false)
+     | _ => false) = true := by
+  refine ⟨by decide +kernel, by decide +kernel, by decide +kernel, by decide +kernel⟩
+
+/-! ### the statement without `sat` (and without the fragments) fails on the current tree -/
+
+def C12_jsonschema_source_validates_emitted_full : Prop :=
+  ∀ (fmt : String → String → Bool) (pkg : String) (defs : Defs) (root : String) (fuel : Nat) (S Sg : Schemas) (s : Schema)
+    (efuel : Nat) (D : Def) (n : Nat) (j : Json),
+    frontEnd pkg defs fuel (refTo root) = .ok S → runChain goChain S = .ok Sg → Schemas.locate Sg pkg = some s →
+    emitDefs efuel Sg s = some D → wfDeep j = true → jsValidX fmt defs n (refTo root) j = true →
+    ∃ j', goRoundTrip (n + 3) Sg pkg root j = .ok j' ∧ jsValidObj D (n + 3 + 1) root j' = true
+
+/-- `R = {x: string | null (required)}` and the document `{"x": null}` -/
+def cxDefsFE : Defs := [("R", .mk { types := ["object"], hasProps := true, required := ["x"] } [] [] []
+  [("x", scS { types := ["string", "null"] })] (.bool false) .none .none)]
+def cxDocFE : Json := .obj [("x", .null)]
+
+def okJson : DRes Json → Option Json
+  | .ok j => some j
+  | _ => none
+
+/-- everything the full statement assumes holds, and the re-encoded document is rejected -/
+def cxRejected : Bool :=
+  match frontEnd "p" cxDefsFE 8 (refTo "R") with
+  | .ok S =>
+    (match runChain goChain S with
+     | .ok Sg =>
+       (match Schemas.locate Sg "p" with
+        | some s =>
+          (match emitDefs 8 Sg s, okJson (goRoundTrip 7 Sg "p" "R" cxDocFE) with
+           | some D, some j' => !(jsValidObj D 8 "R" j')
+           | _, _ => false)
+        | none => false)
+     | _ => false)
+  | _ => false
+
+theorem C12_jsonschema_source_validates_emitted_counterexample : ¬ C12_jsonschema_source_validates_emitted_full := by
+  intro h
+  have hw : cxRejected = true := by decide +kernel
+  have hv : jsValidX (fun _ _ => true) cxDefsFE 4 (refTo "R") cxDocFE = true := by decide +kernel
+  unfold cxRejected at hw
+  cases hS : frontEnd "p" cxDefsFE 8 (refTo "R") with
+  | ok S =>
+    rw [hS] at hw
+    cases hr : runChain goChain S with
+    | ok Sg =>
+      simp only [hr] at hw
+      cases hl : Schemas.locate Sg "p" with
+      | some s =>
+        simp only [hl] at hw
+        cases he : emitDefs 8 Sg s with
+        | some D =>
+          obtain ⟨j', h1, h2⟩ := h _ "p" cxDefsFE "R" 8 S Sg s 8 D 4 cxDocFE hS hr hl he (by decide +kernel) hv
+          simp only [he, h1, okJson, h2] at hw
+          exact absurd hw (by decide)
+        | none => simp [he] at hw
+      | none => simp [hl] at hw
+    | err _ => simp [hr] at hw
+    | panic _ => simp [hr] at hw
+  | err _ => simp [hS] at hw
+  | panic _ => simp [hS] at hw
+end FE
+
+-- ---- END block of the c01-front builder ----
 
 end Cog.Sem.JSOut
